@@ -14,7 +14,8 @@ seeded random walk) decides who continues.  Yield points are
     preemption between the individual statements of _flush_recording / _add_async_operation / close.
 
 The wrapped cassette is a spy subclass of the real InMemoryTapeCassette.  Observables are canonical:
-recordings are ordinals, keys/values small ints, exceptions type names; no ids, times or addresses.
+recordings are ordinals, keys small ints, values plain ints or type-exact tagged values (enc), exceptions type names;
+no ids, times or addresses.
 
 A thorough-tier mode runs the same workloads with real, free-running threads (direct predicate only).
 """
@@ -28,6 +29,7 @@ import threading
 import time
 
 from driver_common import main
+from lib.pyvals import to_py, from_py
 
 import playback.recording as _rec_mod
 import playback.tape_cassette as _tc_mod
@@ -524,16 +526,35 @@ def _key_num(k):
     return int(k[1:])
 
 
+# Values.  A value of a workload is a plain JSON int (what the short and long workloads always used: unique per request)
+# or a tagged value of lib.pyvals ({"t": "none"}, {"t": "bool", ..}, {"t": "float", "r": "1.0"}, containers ..): None,
+# booleans / ints / floats that compare equal, empty containers.  Observables are TYPE-EXACT: a stored value is written
+# as a plain JSON int only if it is exactly an `int` (True is not 1, 1.0 is not 1), anything else as its tagged form.
+def dec(v):
+    """workload value -> the Python object passed to the API (containers: a fresh object per call)"""
+    return to_py(v) if isinstance(v, dict) else v
+
+
+def enc(v):
+    """Python object found in a recording / received by the spy -> canonical, type-exact JSON"""
+    return v if type(v) is int else from_py(v)
+
+
+def vkey(e):
+    """hashable form of an encoded value (identification of storage calls, failure table)"""
+    return e if type(e) is int else json.dumps(e, sort_keys=True)
+
+
 class SpyRecording(MemoryRecording):
     def _ord(self):
         return int(self.id.rsplit('/r', 1)[1])
 
     def set_data(self, key, value):
-        _spy_call(self._ord(), 'set', (_key_num(key), value),
+        _spy_call(self._ord(), 'set', (_key_num(key), vkey(enc(value))),
                   lambda: MemoryRecording.set_data(self, key, value))
 
     def add_metadata(self, metadata):
-        items = tuple((_key_num(k), v) for k, v in metadata.items())
+        items = tuple((_key_num(k), vkey(enc(v))) for k, v in metadata.items())
         _spy_call(self._ord(), 'meta', items, lambda: MemoryRecording.add_metadata(self, metadata))
 
 
@@ -559,7 +580,7 @@ class SpyCassette(InMemoryTapeCassette):
 
 
 def _dict_items(d, prefix):
-    return sorted([_key_num(k), v] for k, v in d.items())
+    return sorted(([_key_num(k), enc(v)] for k, v in d.items()), key=lambda kv: kv[0])
 
 
 def contents(spy):
@@ -580,9 +601,9 @@ def live_state(spy):
 # --------------------------------------------------------------------------------------------------
 def op_args(op):
     if op['k'] == 'set':
-        return (op['key'], op['val'])
+        return (op['key'], vkey(op['val']))
     if op['k'] in ('meta', 'metamut'):
-        return tuple((k, v) for k, v in op['items'])
+        return tuple((k, vkey(v)) for k, v in op['items'])
     return ()
 
 
@@ -591,8 +612,10 @@ def spy_kind(op):
 
 
 def ident(kind, args):
-    """what identifies a storage call as a particular request: values are unique per request; a metadata call is
-    identified by its first item (the dict may have grown since the request, finding F12)"""
+    """what identifies a storage call as a particular request: recording, kind and arguments (type-exact: vkey); the
+    values of the schedule-oriented workloads are unique per request, requests of the value-shape workloads may be
+    identical (then they are interchangeable, see identify); a metadata call is identified by its first item (the dict
+    may have grown since the request, finding F12)"""
     args = tuple(tuple(a) if isinstance(a, list) else a for a in args)
     return args[:1] if kind == 'meta' else args
 
@@ -610,11 +633,11 @@ def request(cas, recs, op, late=False):
     """One request through the public API of the cassette under test (or of the synchronous twin)."""
     r = recs[op['rec']]
     if op['k'] == 'set':
-        r.set_data('k%d' % op['key'], op['val'])
+        r.set_data('k%d' % op['key'], dec(op['val']))
     elif op['k'] == 'meta':
-        r.add_metadata(dict(('m%d' % k, v) for k, v in op['items']))
+        r.add_metadata(dict(('m%d' % k, dec(v)) for k, v in op['items']))
     elif op['k'] == 'metamut':
-        d = dict(('m%d' % k, v) for k, v in op['items'])
+        d = dict(('m%d' % k, dec(v)) for k, v in op['items'])
         if late:        # (twin only) what the request would be if the caller's later change came first
             d['m%d' % op['mkey']] = op['mval']
         r.add_metadata(d)
@@ -646,8 +669,8 @@ def run_twin(case, order, late=False):
 
 def identify(case, log, enq_order):
     """Map the calls seen by the spy to requested operations: same recording, kind and arguments.  Identical
-    requests (saves of one recording issued by several producers) are interchangeable: among them prefer the one whose
-    producer has nothing earlier outstanding, then the earliest enqueued."""
+    requests (saves of one recording issued by several producers, repeated writes of one value) are interchangeable:
+    among them prefer the one whose producer has nothing earlier outstanding, then the earliest enqueued."""
     pool = {}
     for p, i in enq_order:
         op = case['work'][p][i]
